@@ -33,8 +33,12 @@ def absolute_offset_views(f: FuncInfo) -> List[dict]:
             # default offset: torch uses the receiver's own offset
             out.append(dict(node=n, recv=u(recv), offset=None, ok=True, why="default offset"))
             continue
+        from sa.inline import Inliner
+        inl = Inliner(f.node)
+        offx = inl.expand(off)  # the offset may have been given a name first
+        recvx = inl.text(recv)
         mentions = any(isinstance(c, ast.Call) and isinstance(c.func, ast.Attribute) and c.func.attr == "storage_offset"
-                       and u(c.func.value) == u(recv) for c in ast.walk(off))
+                       and u(c.func.value) in (u(recv), recvx) for c in list(ast.walk(offx)) + list(ast.walk(off)))
         fresh = False
         if isinstance(recv, ast.Name):
             rd = rd or ReachingDefs(f.node)
